@@ -2,7 +2,7 @@
    (The ADVAN/TRANS table obligations are REGENERATED from advan.py on every run into
    build/gen/C01/AdvanObligations.v and compiled there; see harness/props/c01_tadvan.py.) *)
 From Coq Require Import QArith List Bool PArith Arith.
-From PV Require Import Base.PyData Base.Expr Base.Stmts C01.Model C01.Proofs C01.ProofsRates C01.ProofsParams C01.ProofsOmega C01.Parser C01.ParserProofs C01.Des C01.ProofsDes C01.PrecPrinter C01.ProofsPrec.
+From PV Require Import Base.PyData Base.Expr Base.Stmts C01.Model C01.Proofs C01.ProofsRates C01.ProofsParams C01.ProofsOmega C01.Parser C01.ParserProofs C01.Des C01.ProofsDes C01.PrecPrinter C01.ProofsPrec C01.ProofsPrecLen.
 Local Open Scope nat_scope.
 
 (* Reading abbreviated code preserves its meaning.  For EVERY program (any length, any nesting,
@@ -193,3 +193,9 @@ Proof. exact parse_print_prec_expr_lemma. Qed.
 (* more fuel never changes a successful parse (all seven mutually recursive parser functions) *)
 Theorem parser_fuel_monotone : forall n, mono_at n.
 Proof. exact mono_all. Qed.
+
+(* ... and with the fuel that parse_prog computes itself from the token count (100 * length + 100): for EVERY
+   well-formed program, parse_prog reads its minimal-parentheses text back as the program — the same statement
+   as parse_print, now for the precedence printer, with no explicit fuel. *)
+Theorem parse_print_prec_prog : forall p : body, wf_body p = true -> parse_prog (prP_body p) = Some p.
+Proof. exact parse_print_prec_prog_lemma. Qed.
